@@ -263,8 +263,41 @@ func gen(t *rapid.T) (Case, []string) {
 	var classes []string
 	data, seedType := seedEncoding(t, "seed")
 	c := Case{}
-	kind := rapid.SampledFrom([]string{"mutate", "mutate", "mutate", "mutate", "container", "gzip", "soup"}).Draw(t, "kind")
+	kind := rapid.SampledFrom([]string{"mutate", "mutate", "mutate", "mutate", "container", "gzip", "soup", "vectors"}).Draw(t, "kind")
 	switch kind {
+	case "vectors":
+		// vector ids where values are expected: vectors inside vectors, more (or fewer) of them than the caller has hints for
+		var build func(depth int) []byte
+		nvec := 0
+		build = func(depth int) []byte {
+			nvec++
+			n := rapid.IntRange(0, 3).Draw(t, "vcount")
+			w := binary.LittleEndian.AppendUint32(binary.LittleEndian.AppendUint32(nil, 0x1cb5c415), uint32(n))
+			for i := 0; i < n; i++ {
+				switch e := rapid.IntRange(0, 3).Draw(t, "velem"); {
+				case e == 0 && depth < 3:
+					w = append(w, build(depth+1)...)
+				case e == 1:
+					obj, _ := seedEncoding(t, "velemobj")
+					w = append(w, obj...)
+				default:
+					w = binary.LittleEndian.AppendUint32(w, m.word("velemword"))
+				}
+			}
+			return w
+		}
+		data = build(0)
+		switch rapid.IntRange(0, 3).Draw(t, "vwrap") {
+		case 0:
+			data = append(binary.LittleEndian.AppendUint64(binary.LittleEndian.AppendUint32(nil, 0xf35c6d01), rapid.Uint64().Draw(t, "req")), data...)
+		case 1:
+			data = append(binary.LittleEndian.AppendUint32(nil, 0x3072cfa1), tlString(gzipOf(data))...)
+		}
+		m.hist = append(m.hist, fmt.Sprintf("%d vector ids nested", nvec))
+		classes = append(classes, "mut:nested-vectors")
+		if nvec >= 2 {
+			classes = append(classes, "mut:vector-inside-vector")
+		}
 	case "container":
 		n := int32(m.word("count"))
 		if rapid.Bool().Draw(t, "smallcount") {
@@ -368,7 +401,11 @@ func gen(t *rapid.T) (Case, []string) {
 		}
 	}
 	c.Data = data
-	switch rapid.IntRange(0, 4).Draw(t, "target") {
+	target := rapid.IntRange(0, 4).Draw(t, "target")
+	if kind == "vectors" && target != 0 {
+		target = 2 // mostly with hints: that is how the client decodes answers to vector-declaring calls
+	}
+	switch target {
 	case 0, 1:
 		c.Target = "unknown"
 		classes = append(classes, "target:unknown-no-hints")
